@@ -22,7 +22,7 @@ use crate::common::*;
 const SQL: &str = "SELECT 1 from t\n"; // exactly one (fixable) CP01 violation per processing
 const DIRS: &[&str] = &["temp", "sub", "build", "models", "Temp", ".hid", "d.sql", "t"];
 const FILES: &[&str] = &["a.sql", "b.sql", "c.SQL", "x.hql", "n.txt", "m.sql.j2", ".h.sql", "README", "q.ddl", "e.Sql", "asql", "temp"];
-const EXTS: &[&str] = &["", ".sql", ".sql,.hql", ".hql", ".sql,sql", ".j2,.sql", ".txt,.sql", ".ddl,.dml,.sql.j2"];
+const EXTS: &[&str] = &["", ".sql", ".sql,.hql", ".hql", ".sql,sql", ".j2,.sql", ".txt,.sql", ".ddl,.dml,.sql.j2", ".SQL", ".Sql,.hql"];
 const NAMES: &[&str] = &["temp", "sub", "build", "models", "Temp", ".hid", "d.sql", "t", "a.sql", "b.sql", "c.SQL", "x.hql", "n.txt", "m.sql.j2", ".h.sql", "README"];
 const GLOBS: &[&str] = &["*.sql", "*.hql", "*", "a*", "?.sql", "t*p", "*.s?l", "*.SQL", "te??", "*e*", ".*", "*.sql.j2", "??", "b*.sql"];
 
@@ -150,8 +150,10 @@ fn gen_args(rng: &mut Rng, tree: &[(Vec<String>, bool)]) -> Vec<(u8, Vec<String>
             args.push(([1u8, 2][rng.below(2)], vec![]));
             continue;
         }
-        let (p, _) = tree[rng.below(tree.len())].clone();
-        args.push((rng.below(3) as u8, p));
+        let (p, d) = tree[rng.below(tree.len())].clone();
+        // a directory is sometimes spelled with a trailing slash ("sub/")
+        let k = if d && rng.chance(1, 5) { 3 } else { rng.below(3) as u8 };
+        args.push((k, p));
     }
     args
 }
@@ -188,7 +190,7 @@ fn g_path(p: &[String]) -> String {
 }
 fn g_pfx(k: u8) -> &'static str {
     match k {
-        0 => "Rel",
+        0 | 3 => "Rel",
         1 => "Dot",
         _ => "Abs",
     }
@@ -286,6 +288,7 @@ fn spell(root: &Path, a: &(u8, Vec<String>)) -> String {
     let j = a.1.join("/");
     match a.0 {
         0 => j,
+        3 => format!("{}/", j),
         1 => {
             if j.is_empty() {
                 ".".to_string()
@@ -462,7 +465,7 @@ fn run_pipe(env: &Env, idx: usize, c: &TreeCase, out: &mut Buf) {
         None => None,
     };
     let is_dir = |p: &Vec<String>| p.is_empty() || c.tree.iter().any(|(q, d)| q == p && *d);
-    let has_ext = |name: &str| exts.iter().any(|e| name.to_lowercase().ends_with(e.as_str()));
+    let has_ext = |name: &str| exts.iter().any(|e| name.to_lowercase().ends_with(e.to_lowercase().as_str()));
     let mut expected: BTreeSet<Vec<String>> = BTreeSet::new();
     for (_, a) in &eff_args {
         if is_dir(a) {
@@ -599,6 +602,7 @@ pub fn main(args: &Args) {
         t2.push((p("d.sql"), true));
         t2.push((p("d.sql/e.sql"), false));
         items.push(Item::Pipe(0, TreeCase { tree: t2, exts_cfg: s(""), lines: None, args: vec![(1, vec![])], cls: "regression" }));
+        items.push(Item::Pipe(0, TreeCase { tree: t1.clone(), exts_cfg: s(".SQL"), lines: None, args: vec![(1, vec![]), (3, p("sub"))], cls: "regression" }));
         items.push(Item::Gi(GiItem {
             lines: readme.clone(),
             paths: vec![(p("temp/b.sql"), false), (p("sub/temp/c.sql"), false), (p("a.sql"), false), (p("x.hql"), false), (p("sub/x.hql"), false), (p("temp"), true), (p("temp"), false)],
